@@ -354,11 +354,13 @@ reg(
     "translation_validation",
     "Only the identity clause, at the loader: the same generated tree supplied as JSON text (compact with raw non-ASCII, and indented with \\u escapes incl. "
     "surrogate pairs) goes through the route yq uses for JSON input (YamlIndex::build + mark_json_sourced, then to_json_document) and must load as the tree; "
-    "C14's YAMLLOAD decides the same for its block / flow YAML renderings, so the renderings agree. Programs other than identity run in the jq evaluators, "
-    "which are not evaluated: their independence of the input syntax is not decided.",
-    [only_cfgs(_lazy("yamlload", "rule_load_json", n_quick=40), ["cli"])],
+    "C14's YAMLLOAD decides the same for its block / flow YAML renderings, so the renderings agree. YQDOM(syntax) adds programs: the yq runner's core "
+    "(yq_runner::evaluate_yaml_direct_filtered with and without the JSON-sourced mark, then output_value with -o json) on generated trees (and trees with integers beyond "
+    "2^53 / at the i64 edges) given as JSON text and as their generated YAML presentation, crossed with 12 (thorough 20) programs that do not inspect presentation: "
+    "the printed texts and the error outcome must be the same.",
+    [only_cfgs(_lazy("yamlload", "rule_load_json", n_quick=40), ["cli"]), only_cfgs(_lazy("yqdom", "rule_syntax"), ["cli"])],
     quick=["cli"],
-    technique="finite-domain evaluation of the loader MIR on JSON renderings of a generated tree family vs the generating tree",
+    technique="finite-domain evaluation of the loader and of the yq runner's evaluate-and-print core from MIR on JSON and YAML renderings of a generated tree family",
 )
 
 reg(
@@ -543,10 +545,14 @@ reg(
     "plain, the loader's own yaml::scalar::resolve_plain (evaluated from MIR) must resolve it to a string, and the text must be lexically a plain scalar for this loader. "
     "YAMLEMIT decides the identity clause on a sample of the generated presentation space: load, print with YamlCursor::stream_yaml_document (indent 2 and 4; "
     "thorough 1..7), load the printed text again, compare with the first load's JSON (block structure, indentation indicators, re-quoting, anchors and aliases "
-    "as printed). Write programs (assignment, update, deletion, merge) and the CLI runner's alias bookkeeping are not evaluated.",
-    [only_cfgs(_lazy("yamlquote", "rule_yaml_quoting"), ["cli"]), only_cfgs(_lazy("yamlemit", "rule_emit"), ["cli"])],
+    "as printed). YQDOM(write) decides the write clause on a family: yq_runner::evaluate_yaml_direct_filtered (index, per-document cursor, the generic evaluator under "
+    "YqSemantics, presentation reconciliation, anchor soundness) and yq_runner::output_value (the DOM YAML emitter; the configuration comes from OutputConfig::from_args "
+    "evaluated on -o / -I) on named documents (flow, quoted, commented, anchored, block-scalar nodes) and generated streams x write programs derived from each "
+    "document's own container paths (assignment to new and existing paths, +=, *=, |=, del) x -I 2, 4, 0 (thorough 0..8): the YAML printed must load back to the value "
+    "the JSON printer gives for the same run. Results that are root scalars are skipped (the documented root-scalar shortcut, a known finding of YAMLEMIT).",
+    [only_cfgs(_lazy("yamlquote", "rule_yaml_quoting"), ["cli"]), only_cfgs(_lazy("yamlemit", "rule_emit"), ["cli"]), only_cfgs(_lazy("yqdom", "rule_write"), ["cli"])],
     quick=["cli"],
-    technique="finite-domain evaluation of writer deciders and the reader's resolver from MIR (writer/reader table agreement)",
+    technique="finite-domain evaluation of writer deciders, the reader's resolver, the streaming emitter and the yq runner's evaluate-and-print core from MIR (writer/reader agreement)",
 )
 
 
